@@ -1,0 +1,46 @@
+//go:build verif
+// +build verif
+
+// Contracts for the deductive verifier in /verif (govc). Comment-only: no executable code.
+package controllers
+
+//@ const REG = reg[m.Manager]
+
+//@ func (*UpstreamClusterController).checkServerNameConflict props C10
+//@   pure
+//@   ensures [no_conflict] result == nil && !deq(box(oldServerNames), box(newServerNames)) ==> forall j int :: {newServerNames[j]} 0 <= j && j < len(newServerNames) ==> REG[toLower(newServerNames[j])] == nil || REG[toLower(newServerNames[j])].Cluster == clusterName
+//@   loop 0: invariant [t] true
+//@   loop 1: invariant [bounds] 0 <= idx && idx <= len(newServerNames)
+//@   loop 1: invariant [ok] forall j int :: {newServerNames[j]} 0 <= j && j < idx ==> REG[toLower(newServerNames[j])] == nil || REG[toLower(newServerNames[j])].Cluster == clusterName
+//@   loop 2: invariant [t] true
+
+//@ func (*UpstreamClusterController).AddOrUpdateForServerNames props C10
+//@   modifies reg[m.Manager]
+//@   ensures [frame] forall k string :: {REG[k]} old(REG[k]) != nil && old(REG[k]).Cluster != clusterInfo.Cluster ==> REG[k] == old(REG[k])
+//@   ensures [no_foreign] forall k string :: {REG[k]} REG[k] != old(REG[k]) ==> REG[k] == nil || REG[k] == clusterInfo
+//@   ensures [registered] result == nil && clusterInfo != nil && !deq(box(oldServerNames), box(serverNamesOf(clusterInfo))) ==> forall j int :: {serverNamesOf(clusterInfo)[j]} 0 <= j && j < len(serverNamesOf(clusterInfo)) && !has(oldServerNames, serverNamesOf(clusterInfo)[j]) ==> REG[toLower(serverNamesOf(clusterInfo)[j])] == clusterInfo
+//@   loop 0: invariant [t] reg == old(reg) && idx <= len(oldServerNames)
+//@   loop 0: invariant [oldmap] forall s string :: {s in oldServerNameMap} (s in oldServerNameMap) <==> has(take(oldServerNames, idx), s)
+//@   loop 1: invariant [t] reg == old(reg)
+//@   loop 1: invariant [oldmap] forall s string :: {s in oldServerNameMap} (s in oldServerNameMap) <==> has(oldServerNames, s)
+//@   loop 2: invariant [others] forall g ref :: {reg[g]} g != m.Manager ==> reg[g] == old(reg[g])
+//@   loop 2: invariant [oldmap] forall s string :: {s in oldServerNameMap} (s in oldServerNameMap) <==> has(oldServerNames, s)
+//@   loop 3: invariant [others] forall g ref :: {reg[g]} g != m.Manager ==> reg[g] == old(reg[g])
+//@   loop 2: invariant [frame] forall k string :: {REG[k]} old(REG[k]) != nil && old(REG[k]).Cluster != clusterInfo.Cluster ==> REG[k] == old(REG[k])
+//@   loop 2: invariant [no_foreign] forall k string :: {REG[k]} REG[k] != old(REG[k]) ==> REG[k] == nil
+//@   loop 3: invariant [bounds] 0 <= idx && idx <= len(newServerNames)
+//@   loop 3: invariant [frame] forall k string :: {REG[k]} old(REG[k]) != nil && old(REG[k]).Cluster != clusterInfo.Cluster ==> REG[k] == old(REG[k])
+//@   loop 3: invariant [no_foreign] forall k string :: {REG[k]} REG[k] != old(REG[k]) ==> REG[k] == nil || REG[k] == clusterInfo
+//@   loop 3: invariant [added] forall j int :: {newServerNames[j]} 0 <= j && j < idx && !(newServerNames[j] in oldServerNameMap) ==> REG[toLower(newServerNames[j])] == clusterInfo
+//@   loop 3: invariant [oldmap] forall s string :: {s in oldServerNameMap} (s in oldServerNameMap) <==> has(oldServerNames, s)
+
+//@ func (*UpstreamClusterController).DeleteForServerNames props C10, C15
+//@   modifies reg[m.Manager], stopped
+//@   ensures [frame] forall k string :: {REG[k]} old(REG[k]) != nil && old(REG[k]).Cluster != clusterName ==> REG[k] == old(REG[k])
+//@   ensures [no_foreign] forall k string :: {REG[k]} REG[k] != old(REG[k]) ==> REG[k] == nil
+//@   ensures [removed] old(REG[toLower(clusterName)]) != nil ==> forall j int :: {serverNamesOf(old(REG[toLower(clusterName)]))[j]} 0 <= j && j < len(serverNamesOf(old(REG[toLower(clusterName)]))) && old(REG[toLower(serverNamesOf(old(REG[toLower(clusterName)]))[j])]) != nil && old(REG[toLower(serverNamesOf(old(REG[toLower(clusterName)]))[j])]).Cluster == clusterName ==> REG[toLower(serverNamesOf(old(REG[toLower(clusterName)]))[j])] == nil
+//@   loop 0: invariant [bounds] 0 <= idx && idx <= len(serverNames)
+//@   loop 0: invariant [others] forall g ref :: {reg[g]} g != m.Manager ==> reg[g] == old(reg[g])
+//@   loop 0: invariant [frame] forall k string :: {REG[k]} old(REG[k]) != nil && old(REG[k]).Cluster != clusterName ==> REG[k] == old(REG[k])
+//@   loop 0: invariant [no_foreign] forall k string :: {REG[k]} REG[k] != old(REG[k]) ==> REG[k] == nil
+//@   loop 0: invariant [removed] forall j int :: {serverNames[j]} 0 <= j && j < idx && old(REG[toLower(serverNames[j])]) != nil && old(REG[toLower(serverNames[j])]).Cluster == clusterName ==> REG[toLower(serverNames[j])] == nil
